@@ -22,6 +22,27 @@ theorem dec_dump_append (v : Val) (e rest : Bytes) (hwf : v.wf = true) (h : dump
     (fuel : Nat) (hf : need v ≤ fuel) : dec fuel (e ++ rest) = .ok (v, rest) :=
   dec_enc v e hwf h fuel rest hf
 
+/-- **No two values share an encoding.** Distinct well-formed values — `True` and `1`, `0.0` and `-0.0`, `(1,)` and
+`1`, `""` and `b""`, two NaNs with different payloads — never produce the same bytes: the type and structure are
+recoverable because the encoding is injective. -/
+theorem dump_injective (v w : Val) (e : Bytes) (hv : v.wf = true) (hw : w.wf = true)
+    (h1 : dump v = .ok e) (h2 : dump w = .ok e) : v = w := by
+  have a := load_dump v e hv h1
+  have b := load_dump w e hw h2
+  rw [a] at b
+  injection b
+
+/-- **Encodings are prefix-free**: no encoding is a proper prefix of another, so a concatenation of encodings (a
+tuple's items, a packet's payload) splits in exactly one way. -/
+theorem dump_prefix_free (v w : Val) (e rest : Bytes) (hv : v.wf = true) (hw : w.wf = true)
+    (h1 : dump v = .ok e) (h2 : dump w = .ok (e ++ rest)) : v = w ∧ rest = [] := by
+  have a := dec_dump_append v e rest hv h1 (need v + need w) (by omega)
+  have b := dec_dump_append w (e ++ rest) [] hw h2 (need v + need w) (by omega)
+  rw [List.append_nil, a] at b
+  injection b with b
+  injection b with b1 b2
+  exact ⟨b1, b2⟩
+
 /-- **Accepts what it declares.** Every value `dumpable` accepts is encoded, within the explicit
 domain (integers the interpreter can render as text, lengths `struct` can frame: < 2^32).
 Full strength: no condition on the text — lone surrogates included. -/
@@ -109,6 +130,17 @@ example : ∃ e, dump sample = .ok e ∧ load e = .ok sample := by
   exact ⟨e, he, load_dump sample e (by decide +kernel) he⟩
 example : dumpable (.tuple [.int 1, .tuple [.other 0]]) = false
     ∧ dump (.tuple [.int 1, .tuple [.other 0]]) = .error .typeError := ⟨rfl, rfl⟩
+/-- the hypotheses of `dump_injective` / `dump_prefix_free` are met by every encodable value (here the sample, `rest = []`),
+and the look-alikes really do encode differently -/
+example : ∃ e, dump sample = .ok e ∧ dump sample = .ok (e ++ []) ∧ sample.wf = true := by
+  obtain ⟨e, he⟩ := dump_total sample (by decide +kernel) (by decide +kernel)
+  exact ⟨e, he, by simpa using he, by decide +kernel⟩
+example (e : Bytes) (h1 : dump (.bool true) = .ok e) : dump (.int 1) ≠ .ok e := fun h2 => by
+  have := dump_injective _ _ e (by decide) (by decide) h1 h2
+  cases this
+example (e : Bytes) (h1 : dump (.tuple [.int 1]) = .ok e) : dump (.int 1) ≠ .ok e := fun h2 => by
+  have := dump_injective _ _ e (by decide) (by decide) h1 h2
+  cases this
 /-- a truncated tuple (two items announced, one present) is refused: reading past the end raises -/
 example : load [Gen.tagTupL1, 2, Gen.tagNone] = .error .typeError := by
   simp [load, dec_tag_tupL1, decTup, decN, dec_tag_none, dec]
